@@ -83,8 +83,6 @@ PANIC_TABLE = {
     ("darling_core::options::ParseData::parse_body", "panic"): dict(
         max=1, scope="derive", who="union-rejected-first", guard=[r"discr\(a2\)=Union"],
         why="every …Options::new calls Core::start(di)? first and try_empty_from returns Err on a union"),
-    ("darling_core::options::parse_attr", "panic"): dict(
-        max=2, scope="derive", finding="F1", why="literal item or non-list #[darling] attribute reaches panic!"),
     ("darling_core::options::from_meta::FromMetaOptions::from_word::{closure#0}", "parse-quote"): dict(
         max=1, scope="derive", who="parse-quote-ident-only", why="parse_quote!(|| Ok(Self::#ident)) – the only interpolation is an Ident, the expression always parses"),
     ("darling_core::options::input_field::InputField::as_codegen_field::{closure#2}", "parse-quote"): dict(max=1, scope="derive", const=True, why="constant path"),
